@@ -271,12 +271,17 @@ def run(ctx):
             if kind in ("UnpackTuple", "MakeTuple") and len(c["types"]) < 2:
                 continue
             break
-        case = {"plant": [{"at": 0, "op": c}],
-                # (the last node is created with MORE output ports than its operation has; nothing is linked to the
+        sink = {"k": "Custom", "ins": [["bool"], ["bool"]], "outs": [], "args": [], "desc": "", "ext": "verif.sink",
+                "opname": "sink"}
+        case = {"plant": [{"at": 0, "op": c}, {"at": 0, "op": sink, "num_outs": 1 + i % 3}],
+                # (the second planted node is a SINK -- no value outputs -- created with surplus output ports; the last
+                # history node is created with MORE output ports than its operation has; nothing is linked to the
                 # surplus ports, its order edge still sits right after the operation's value ports)
-                "hist": [["add_node", 0, 4, None], ["add_node", 0, 4, None], ["add_link", 1, 0, 2, 0],
-                         ["add_link", 3, 0, 1, 0], ["add_order_link", 1, 3], ["add_order_link", 2, 1],
-                         ["add_node", 0, 7, None], ["add_order_link", 4, 2], ["add_link", 4, 1, 3, 1]]}
+                # handles: 0 root, 1 the hand-typed op, 2 the sink, 3.. the history's nodes
+                "hist": [["add_node", 0, 4, None], ["add_node", 0, 4, None], ["add_link", 1, 0, 3, 0],
+                         ["add_link", 4, 0, 1, 0], ["add_order_link", 1, 4], ["add_order_link", 3, 1],
+                         ["add_node", 0, 7, None], ["add_order_link", 5, 3], ["add_link", 5, 1, 4, 1],
+                         ["add_order_link", 2, 3], ["add_link", 4, 1, 2, 1]]}
         ctx.feat("feature:hand-typed-op-partially-connected")
         info = ctx.guard("typed-partial", case, check_hugr_case, ctx, case, "attr-rich", i % 4 == 0)
         ctx.case("typed-partial", case, True)
